@@ -821,7 +821,7 @@ Definition insp_prev (e : ev) : bool := Bool.eqb (acc_prev e) (takes e KPrev).
 
 Definition takes_spm (e : ev) : bool := takes e KSeats && takes e KPrev && takes e KMax.
 Definition prev_implies_max (e : ev) : bool := implb (takes e KPrev) (takes e KMax).
-Definition only_seats_cl (e : ev) : bool := takes e KSeats && takes e KCl.
+Definition is_open_leaf (e : ev) : bool := match e with Leaf _ LOpen => true | _ => false end.
 
 (* [wt]: every part is handed only arguments it takes ; [faithful]: the inspect-based dispatch
    agrees with what the inspected part takes *)
@@ -841,7 +841,7 @@ Fixpoint wt (t : ev) : bool :=
   | Multi rs _ => forallb (fun s => takes_spm s && wt s) rs
   | TieBr m b => wt m && takes b KSeats && wt b
   | PListC p => takes p KSeats && wt p
-  | PListO p le _ => takes p KSeats && wt p && only_seats_cl le && wt le
+  | PListO p le _ => takes p KSeats && wt p && is_open_leaf le
   end.
 
 Fixpoint faithful (t : ev) : bool :=
